@@ -504,7 +504,7 @@ def first_diff(a, b):
 def check_expr(expr, oracle=None, routes=True):
     """Returns (status, fails); status in ok/unspec; fails = list of dicts
     {ob, what, observed, expected} (empty = contract holds)."""
-    signal.setitimer(signal.ITIMER_REAL, CASE_TIMEOUT)
+    signal.setitimer(signal.ITIMER_PROF, CASE_TIMEOUT)
     try:
         want = ps.den(expr, LIMIT + 1, oracle)
     except Unspecified as e:
@@ -514,7 +514,7 @@ def check_expr(expr, oracle=None, routes=True):
     except Hang:
         return 'unspec:den-timeout', []
     finally:
-        signal.setitimer(signal.ITIMER_REAL, 0)
+        signal.setitimer(signal.ITIMER_PROF, 0)
     if not finite_ok(want):
         return 'unspec:nonfinite', []
     finite = len(want) <= LIMIT
@@ -525,14 +525,14 @@ def check_expr(expr, oracle=None, routes=True):
         fails.append({'ob': ob, 'what': what, 'observed': observed,
                       'expected': expected})
 
-    signal.setitimer(signal.ITIMER_REAL, CASE_TIMEOUT)
+    signal.setitimer(signal.ITIMER_PROF, CASE_TIMEOUT)
     try:
         try:
             p = ps.build(expr)
             before = snapshot(p)
             got = real_iter(p)
         except Hang:
-            fail('hang', 'no 64 values within %d s' % CASE_TIMEOUT,
+            fail('hang', 'no 64 values within %d s of CPU time' % CASE_TIMEOUT,
                  None, want)
             return 'ok', fails
         except Exception as e:
@@ -566,13 +566,13 @@ def check_expr(expr, oracle=None, routes=True):
                      'changed by streaming', repr(after)[:400],
                      repr(before)[:400])
         except Hang:
-            fail('hang', 'second stream: no 64 values within %d s'
+            fail('hang', 'second stream: no 64 values within %d s of CPU time'
                  % CASE_TIMEOUT, None, want)
         except Exception as e:
             fail('immut.exception', 'second/interleaved stream raised %s: %s'
                  % (type(e).__name__, e), repr(e), got)
     finally:
-        signal.setitimer(signal.ITIMER_REAL, 0)
+        signal.setitimer(signal.ITIMER_PROF, 0)
     return 'ok', fails
 
 
@@ -610,6 +610,8 @@ def shrink(expr, grp, oracle=None):
 def _worker(text):
     expr = dec(text)
     status, fails = check_expr(expr)
+    if any(f['ob'] == 'hang' for f in fails):
+        status, fails = check_expr(expr)        # a hang must repeat
     out = []
     done = set()
     for f in fails:
@@ -635,7 +637,7 @@ def _worker(text):
 
 
 def _init_worker():
-    signal.signal(signal.SIGALRM, _alarm)
+    signal.signal(signal.SIGPROF, _alarm)
 
 
 def run_cases(rep, name, texts, bound, rule, exhaustive):
@@ -781,7 +783,7 @@ def run_child(pairs, hashseed):
 def check_random(rep):
     from sc3.base import builtins as bi
     from sc3.base.stream import StopStream, Routine
-    signal.signal(signal.SIGALRM, _alarm)
+    signal.signal(signal.SIGPROF, _alarm)
     n = 0
     nontrivial = set()
     samples = []
@@ -904,7 +906,7 @@ def check_random(rep):
                 emb += 1
                 nontrivial.add(enc(c))
                 for f in fails:
-                    viol('embed.' + f['ob'], '%s-in-%s' % (rexpr[0], variant(c)),
+                    viol('embed.' + f['ob'], 'embed-in-%s' % variant(c),
                          '%s: %s' % (enc(c), f['what']), c, f['observed'],
                          f['expected'])
     if broken:
@@ -934,7 +936,7 @@ def main(rep):
     warnings.simplefilter('ignore')
     import sc3
     sc3.init('nrt')
-    signal.signal(signal.SIGALRM, _alarm)
+    signal.signal(signal.SIGPROF, _alarm)
     rep.note('C13 corners left unspecified (expressions hitting them are '
              'left out and counted in unspecified_left_out): '
              + '; '.join(ps.OPEN))
@@ -959,9 +961,9 @@ def main(rep):
                  'and non-empty; unspecified corners counted separately',
             exhaustive=True)
         if rep.tier == 'thorough':
-            total, depths = 160000, (3, 4)
+            total, depths = 400000, (3, 4)
         else:
-            total, depths = 60000, (2, 3)
+            total, depths = 100000, (2, 3)
         texts = []
         seen = set()
         tries = 0
@@ -992,7 +994,7 @@ def replay(case, rep):
     warnings.simplefilter('ignore')
     import sc3
     sc3.init('nrt')
-    signal.signal(signal.SIGALRM, _alarm)
+    signal.signal(signal.SIGPROF, _alarm)
     r = case.get('replay') or {}
     if r.get('func') == 'expr':
         expr = dec(r['args'])
